@@ -289,6 +289,8 @@ def _expand(call: ast.Call, ctx_stmt: ast.stmt, helper, hkind: str, caller) -> O
                 if safe:
                     return [ast.Assign(targets=[copy.deepcopy(t)], value=v) for t, v in zip(tg.elts, e.elts) if not (isinstance(v, ast.Name) and v.id == t.id)] \
                         or [ast.Pass()]
+            if isinstance(tg, ast.Name) and isinstance(e, ast.Name) and e.id == tg.id and len(ctx_stmt.targets) == 1:
+                return [ast.Pass()]   # `x = x`: the helper returned its own local under the caller's name
             return [ast.Assign(targets=copy.deepcopy(ctx_stmt.targets), value=e if e is not None else none)]
     elif isinstance(ctx_stmt, ast.AnnAssign):
         def make(e):
@@ -400,6 +402,7 @@ def inline_new_helpers(trees: Dict[str, Tuple[str, ast.Module]], known: Optional
     if known is None:
         return log
     _ALL_TREES[:] = [t for _rel, t in trees.values()]
+    log.extend(_unroll_helper_comprehensions(trees, known))
     for _round in range(3):
         changed = False
         for mname, (rel, tree) in trees.items():
@@ -467,12 +470,24 @@ def inline_new_helpers(trees: Dict[str, Tuple[str, ast.Module]], known: Optional
                         c = _nested_call(st, fn.name, cls) if same else None
                         if c is not None:
                             sites.append((caller, st, c))
+                            continue
+                        # the helper's result looped over:  for x in helper(...):
+                        if same and isinstance(st, (ast.For,)) and isinstance(st.iter, ast.Call) and _matches(st.iter, fn.name, cls):
+                            sites.append((caller, st, st.iter))
                 if not ok or not sites or len(sites) != len(refs):
                     continue
                 done = 0
                 for caller, st, c in sites:
                     if _call_of(st) is c:
                         new = _expand(c, st, fn, _kind(fn), caller)
+                    elif isinstance(st, ast.For) and st.iter is c:
+                        taken = _stored_names(caller) | {x.arg for x in caller.args.args + caller.args.kwonlyargs}
+                        rn = _result_name(fn, taken)
+                        tmp = ast.copy_location(ast.Assign(targets=[ast.Name(id=rn, ctx=ast.Store())], value=c), st)
+                        new = _expand(c, tmp, fn, _kind(fn), caller)
+                        if new is not None:
+                            st.iter = ast.copy_location(ast.Name(id=rn, ctx=ast.Load()), c)
+                            new = new + [st]
                     else:
                         # hoist: <result> = helper(...) just before the statement, the call replaced by <result>
                         taken = _stored_names(caller) | {x.arg for x in caller.args.args + caller.args.kwonlyargs}
@@ -499,6 +514,64 @@ def inline_new_helpers(trees: Dict[str, Tuple[str, ast.Module]], known: Optional
                     changed = True
         if not changed:
             break
+    return log
+
+
+def _unroll_helper_comprehensions(trees, known) -> List[str]:
+    """`T = [h(...) for x in XS]` with h a multi-statement helper the rules do not know is the loop
+    `T = []` / `for x in XS: T.append(h(...))` (the statement form the expansion of h needs)."""
+    log = []
+    for mname, (rel, tree) in trees.items():
+        kn = known.get(rel)
+        if kn is None:
+            continue
+        new_helpers = {}
+        for q, (fn, cls) in qualnames(tree).items():
+            if q not in kn and _eligible(fn) and _expression_helper(fn) is None:
+                new_helpers[fn.name] = (fn, cls)
+        if not new_helpers:
+            continue
+        for holder in ast.walk(tree):
+            for fld in ("body", "orelse", "finalbody"):
+                lst = getattr(holder, fld, None)
+                if not (isinstance(lst, list) and lst and isinstance(lst[0], ast.stmt)):
+                    continue
+                i = 0
+                while i < len(lst):
+                    st = lst[i]
+                    i += 1
+                    if not (isinstance(st, ast.Assign) and len(st.targets) == 1 and isinstance(st.targets[0], ast.Name)):
+                        continue
+                    v, wrap = st.value, None
+                    if isinstance(v, ast.Call) and isinstance(v.func, ast.Name) and v.func.id in ("tuple", "list") and len(v.args) == 1 and not v.keywords:
+                        wrap, v = v.func.id, v.args[0]
+                    if not (isinstance(v, (ast.ListComp, ast.GeneratorExp)) and (wrap or isinstance(v, ast.ListComp)) and len(v.generators) == 1 and not v.generators[0].is_async):
+                        continue
+                    c = v.elt
+                    if not (isinstance(c, ast.Call) and ((isinstance(c.func, ast.Name) and c.func.id in new_helpers and new_helpers[c.func.id][1] is None)
+                                                         or (isinstance(c.func, ast.Attribute) and c.func.attr in new_helpers and new_helpers[c.func.attr][1] is not None
+                                                             and isinstance(c.func.value, ast.Name) and c.func.value.id in ("self", "cls")))):
+                        continue
+                    g = v.generators[0]
+                    tname = st.targets[0].id
+                    if any(isinstance(n, ast.Name) and n.id == tname for n in ast.walk(v)):
+                        continue
+                    app = ast.Expr(value=ast.Call(func=ast.Attribute(value=ast.Name(id=tname, ctx=ast.Load()), attr="append", ctx=ast.Load()), args=[c], keywords=[]))
+                    body = [app]
+                    for t in reversed(g.ifs):
+                        body = [ast.If(test=t, body=body, orelse=[])]
+                    loop = ast.For(target=g.target, iter=g.iter, body=body, orelse=[])
+                    init = ast.Assign(targets=[ast.Name(id=tname, ctx=ast.Store())], value=ast.List(elts=[], ctx=ast.Load()))
+                    new = [init, loop]
+                    if wrap == "tuple":
+                        new.append(ast.Assign(targets=[ast.Name(id=tname, ctx=ast.Store())],
+                                              value=ast.Call(func=ast.Name(id="tuple", ctx=ast.Load()), args=[ast.Name(id=tname, ctx=ast.Load())], keywords=[])))
+                    for n_ in new:
+                        ast.copy_location(n_, st)
+                        ast.fix_missing_locations(n_)
+                    lst[i - 1:i] = new
+                    i += len(new) - 1
+                    log.append(f"{rel}: comprehension over new helper {c.func.id if isinstance(c.func, ast.Name) else c.func.attr} unrolled into a loop")
     return log
 
 
